@@ -330,14 +330,49 @@ def load_snapshot(data, ignore=False, path=None):
         return {'snapshot_error': type(e).__name__, 'msg': traceback.format_exc()[-800:]}
 
 
+class _Timeout(Exception):
+    pass
+
+
+def _alarm(signum, frame):
+    raise _Timeout()
+
+
+def guarded(fn, seconds=6):
+    """run fn() under a wall-clock alarm so that one document that makes the loader spin cannot stall the batch"""
+    import signal
+    try:
+        signal.signal(signal.SIGALRM, _alarm)
+        signal.setitimer(signal.ITIMER_REAL, seconds)
+    except Exception:  # noqa
+        return fn()
+    try:
+        return fn()
+    except _Timeout:
+        return {'raised': 'Timeout', 'msg': 'no result after %ds' % seconds}
+    finally:
+        signal.setitimer(signal.ITIMER_REAL, 0)
+
+
 def main():
     payload = json.load(sys.stdin)
     out = []
+    timeouts = 0
     for doc in payload['docs']:
-        if doc.get('path'):
-            out.append(load_snapshot(None, doc.get('ignore', False), path=doc['path']))
-        else:
-            out.append(load_snapshot(doc['xml'].encode('utf-8'), doc.get('ignore', False)))
+        if timeouts >= 3:
+            out.append({'raised': 'Timeout', 'msg': 'skipped: three documents of this batch already timed out'})
+            continue
+        try:
+            if doc.get('path'):
+                r = guarded(lambda: load_snapshot(None, doc.get('ignore', False), path=doc['path']), 60)
+            else:
+                r = guarded(lambda: load_snapshot(doc['xml'].encode('utf-8'), doc.get('ignore', False)),
+                            6 if len(doc['xml']) < 200000 else 60)
+        except Exception as e:  # noqa
+            r = {'snapshot_error': type(e).__name__, 'msg': str(e)[:200]}
+        if r.get('raised') == 'Timeout':
+            timeouts += 1
+        out.append(r)
     json.dump(out, sys.stdout)
 
 
